@@ -21,6 +21,11 @@ use crate::{
 pub struct DocM {
     /// lines exactly as written after `///` (without the leading space the macro strips)
     pub lines: Vec<String>,
+    /// how the text is attached: 0 `///` lines, 1 `#[doc = " line"]` per line, 2 `#[doc = "line"]` per line (no leading
+    /// space to strip), 3 one `#[doc = "\n line\n line"]` attribute that starts with a blank line (what `/**` on its own
+    /// line produces)
+    #[serde(default)]
+    pub style: u8,
     /// expected summary (first paragraph, final period removed)
     pub summary: String,
     /// expected description paragraphs
@@ -229,6 +234,19 @@ impl Gen<'_> {
     }
 
     fn doc(&mut self, about: &str) -> Option<DocM> {
+        let style = match self.r.below(10) {
+            0 => 1,
+            1 => 2,
+            2 => 3,
+            _ => 0,
+        };
+        self.doc_plain(about).map(|mut d| {
+            d.style = style;
+            d
+        })
+    }
+
+    fn doc_plain(&mut self, about: &str) -> Option<DocM> {
         if self.r.chance(35) {
             return None;
         }
@@ -244,6 +262,7 @@ impl Gen<'_> {
                 let c1 = format!("Last paragraph of item {}", n);
                 let c2 = "ends here.".to_string();
                 Some(DocM {
+                    style: 0,
                     lines: vec![a.clone(), String::new(), String::new(), b.clone(), String::new(), String::new(), String::new(), c1.clone(), c2.clone()],
                     summary: a.trim_end_matches('.').to_string(),
                     paragraphs: vec![a, b, format!("{} {}", c1, c2)],
@@ -252,6 +271,7 @@ impl Gen<'_> {
             0 | 1 | 5 => {
                 let l = format!("Summary of {} number {}", about, n);
                 Some(DocM {
+                    style: 0,
                     lines: vec![format!("{}{}", l, dot)],
                     summary: l.clone(),
                     paragraphs: vec![format!("{}{}", l, dot)],
@@ -262,6 +282,7 @@ impl Gen<'_> {
                 let b = format!("second line goes on{}", dot);
                 let merged = format!("{} {}", a, b);
                 Some(DocM {
+                    style: 0,
                     lines: vec![a, b],
                     summary: merged.trim_end_matches('.').to_string(),
                     paragraphs: vec![merged],
@@ -272,6 +293,7 @@ impl Gen<'_> {
                 let b1 = format!("Longer explanation of item {}", n);
                 let b2 = "that spans two lines.".to_string();
                 Some(DocM {
+                    style: 0,
                     lines: vec![a.clone(), String::new(), b1.clone(), b2.clone()],
                     summary: a.trim_end_matches('.').to_string(),
                     paragraphs: vec![a, format!("{} {}", b1, b2)],
@@ -639,6 +661,21 @@ pub fn generate_opts(id: usize, r: &mut R, help_names: bool) -> Decl {
 
 fn emit_doc(out: &mut String, indent: &str, d: &Option<DocM>) {
     if let Some(d) = d {
+        match d.style {
+            1 | 2 => {
+                for l in &d.lines {
+                    let lead = if d.style == 1 && !l.is_empty() { " " } else { "" };
+                    out.push_str(&format!("{}#[doc = \"{}{}\"]\n", indent, lead, l));
+                }
+                return;
+            }
+            3 => {
+                let body: Vec<String> = d.lines.iter().map(|l| if l.is_empty() { String::new() } else { format!(" {}", l) }).collect();
+                out.push_str(&format!("{}#[doc = \"\\n{}\"]\n", indent, body.join("\\n")));
+                return;
+            }
+            _ => {}
+        }
         for l in &d.lines {
             if l.is_empty() {
                 out.push_str(&format!("{}///\n", indent));
@@ -737,6 +774,8 @@ pub fn emit_module(d: &Decl) -> String {
         for m in &g.members {
             if m.hidden {
                 body.push_str("    #[group(hidden)]\n");
+            } else if (d.id + g.id.len()) % 3 == 0 {
+                body.push_str("    #[group(hidden = false)]\n");
             }
             body.push_str(&format!("    {}({}{}),\n", m.ident, m.enum_id, lt(d.enums[&m.enum_id].lt)));
         }
@@ -746,7 +785,11 @@ pub fn emit_module(d: &Decl) -> String {
         body.push_str(&format!("#[derive(Debug, CommandGroup)]\npub enum Root{} {{\n", lt(d.root_lt)));
         for r in &d.roots {
             if r.hidden {
-                body.push_str("    #[group(hidden)]\n");
+                // the bare word and the explicit `= true` are the same thing
+                body.push_str(if (d.id + *r.ident.as_bytes().last().unwrap() as usize) % 2 == 0 { "    #[group(hidden)]\n" } else { "    #[group(hidden = true)]\n" });
+            } else if r.enum_id != "RAW" && (d.id + *r.ident.as_bytes().last().unwrap() as usize) % 3 == 0 {
+                // spelled out, a member is visible with `hidden = false`
+                body.push_str("    #[group(hidden = false)]\n");
             }
             if r.enum_id == "RAW" {
                 body.push_str(&format!("    {}(RawCommand<'a>),\n", r.ident));
